@@ -388,7 +388,13 @@ def r4_child_writes_nothing_of_parent(ctx):
             good = False
             if isinstance(v, ast.Call) and call_name(v) == oc.name:
                 for kw in v.keywords:
-                    if kw.arg == "mixins" and any(isinstance(e, ast.Name) and e.id == rv for e in ast.walk(kw.value)):
+                    val = kw.value
+                    if isinstance(val, ast.Name) and val.id != rv:
+                        # a local that is assigned once: look at what was assigned
+                        defs = [st.value for st in all_stmts(m.node) if isinstance(st, ast.Assign) and any(isinstance(t, ast.Name) and t.id == val.id for t in st.targets)]
+                        if len(defs) == 1:
+                            val = defs[0]
+                    if kw.arg == "mixins" and any(isinstance(e, ast.Name) and e.id == rv for e in ast.walk(val)):
                         good = True
             ok = ok and good
         ctx.ob(
